@@ -57,7 +57,55 @@ fn schema_nested() -> Value {
 }
 
 /// world JSON: {name, schema_json, commits: [[doc..]..], deleted: [id..], pending: [{"add": doc} | {"delete": id}], probes: [request..]}
+/// One probe per dictionary entry: damage that makes a single term (or keyword value) disappear
+/// while everything else still answers must be visible to some probe.
+fn dictionary_probes(world: &Value) -> Vec<Value> {
+  let mut tokens: std::collections::BTreeSet<String> = Default::default();
+  let mut kws: std::collections::BTreeSet<String> = Default::default();
+  for commit in world["commits"].as_array().into_iter().flatten() {
+    for d in commit.as_array().into_iter().flatten() {
+      for t in d["body"].as_str().unwrap_or("").split_whitespace() {
+        tokens.insert(t.to_string());
+      }
+      match &d["kw"] {
+        Value::String(k) => {
+          kws.insert(k.clone());
+        }
+        Value::Array(a) => {
+          for k in a {
+            if let Some(k) = k.as_str() {
+              kws.insert(k.to_string());
+            }
+          }
+        }
+        _ => {}
+      }
+    }
+  }
+  let mut out = Vec::new();
+  for t in tokens {
+    out.push(json!({"query": {"type": "term", "field": "body", "value": t}, "limit": 100, "return_stored": false}));
+  }
+  for k in kws {
+    out.push(json!({"query": {"type": "term", "field": "kw", "value": k}, "limit": 100, "return_stored": false}));
+  }
+  out.push(json!({"query": {"type": "prefix", "field": "body", "value": ""}, "limit": 100, "return_stored": false}));
+  out.push(json!({"query": {"type": "match_all"}, "limit": 1, "return_stored": false, "suggest": {"s": {"type": "completion", "field": "body", "prefix": "", "size": 50}}}));
+  out
+}
+
 fn worlds(quick: bool) -> Vec<Value> {
+  let mut ws = worlds_base(quick);
+  for w in ws.iter_mut() {
+    let extra = dictionary_probes(w);
+    if let Some(p) = w["probes"].as_array_mut() {
+      p.extend(extra);
+    }
+  }
+  ws
+}
+
+fn worlds_base(quick: bool) -> Vec<Value> {
   let flat_probes = json!([
     {"query": {"type": "match_all"}, "limit": 100, "return_stored": true},
     {"query": "a", "limit": 100, "return_stored": false},
@@ -194,11 +242,12 @@ fn normalize(res: &searchlite_core::api::SearchResult) -> Value {
     "hits": res.hits.iter().map(|h| json!({"id": h.doc_id, "score": h.score, "fields": h.fields, "snippet": h.snippet})).collect::<Vec<_>>(),
     "next_cursor": res.next_cursor.is_some(),
     "aggs": serde_json::to_value(&res.aggregations).unwrap_or(Value::Null),
+    "suggest": serde_json::to_value(&res.suggest).unwrap_or(Value::Null),
   })
 }
 
 fn same_probe(a: &Value, b: &Value) -> bool {
-  if a["total"] != b["total"] || a["next_cursor"] != b["next_cursor"] || a["aggs"] != b["aggs"] {
+  if a["total"] != b["total"] || a["next_cursor"] != b["next_cursor"] || a["aggs"] != b["aggs"] || a["suggest"] != b["suggest"] {
     return false;
   }
   let (ha, hb) = (a["hits"].as_array().unwrap(), b["hits"].as_array().unwrap());
